@@ -53,7 +53,7 @@ def check(tier):
     # schedule dimension: generated code under the vsched scheduler with the OpenMP shim (all chunk assignments and access
     # interleavings up to the preemption bound on small driver programs)
     from .. import gomp_cases
-    gomp_cases.run_gomp(rep, tier, dl, "C10")
+    gomp_cases.run_gomp(rep, tier, Deadline(300 if tier == "quick" else 1500), "C10")
     return rep.finish()
 
 
